@@ -7,7 +7,8 @@ cd "$(dirname "$0")/.."
 W=$(mktemp -d /tmp/vfseed.XXXXXX)
 git -C /repo worktree add --detach "$W/repo" HEAD >/dev/null 2>&1 || { echo "worktree failed"; exit 3; }
 trap 'git -C /repo worktree remove --force "$W/repo" >/dev/null 2>&1; rm -rf "$W"' EXIT
-git -C "$W/repo" apply "$(pwd)/seeded/$S/patch.diff" || { echo "patch failed"; exit 3; }
+PATCH="$(pwd)/seeded/$S/patch.diff"; [ -f "$(pwd)/seeded/$S/patch.rebased.diff" ] && PATCH="$(pwd)/seeded/$S/patch.rebased.diff"
+git -C "$W/repo" apply "$PATCH" 2>/dev/null || git -C "$W/repo" apply --3way "$PATCH" >/dev/null 2>&1 || { echo "patch failed"; exit 3; }
 mkdir -p /tmp/vf_try
 VF_REPO="$W/repo" VF_OUT="$W/out" ./check $P $T > /tmp/vf_try/$S.$P.log 2>&1
 rc=$?
